@@ -9,74 +9,116 @@ root, a free-standing module …), `parent->add(child)`, or `throw`.  Calls nest
 patches/C11-02 (re-entrancy guard + index loop), `g = false` the code before it.
 
 Quantification: every store (any number of modules, any shape — the theorems do not even need the
-parent links to form a tree), every assignment of scripts and of onInit/onStart results, every
-sequence of public calls on any modules, every fuel; `thrown = false` excludes runs in which a hook
-threw (and runs cut short by the fuel of the executable model).
+parent links to form a tree), every assignment of scripts and of onInit/onStart results — re-armed
+and changed at will between the calls (`Op.arm`, `Op.flags`: an oracle per hook call: return true,
+return false, throw, or run any script first) —, every sequence of public calls on any modules, every
+fuel.  Exceptions are caught by the caller of the public function (the harness boundary) and the
+history goes on.  `bad = false` excludes runs cut short by the fuel of the executable model and runs
+in which an exception left an `onStop` / `onCleanup` hook.
 -/
 import TboxModel.C11.ArenaProofs
 import TboxModel.C11.Final
 namespace Tbox.C11.Arena
 open Tbox.C11
 
-/-- a sequence of public lifecycle calls, each on any module; stops at the first exception -/
-def aRun (g : Bool) (fuel : Nat) : Store → List (Nat × Api) → Res
+/-- what the owner of the modules may do: call a public lifecycle function of any module, give any hook of any
+module a new script (scripts are one-shot), change what a module's `onInit` / `onStart` return and whether the
+configuration has its key -/
+inductive Op where
+  | call (n : Nat) (a : Api)
+  | arm (n : Nat) (h : Hook) (acts : List Act)
+  | flags (n : Nat) (cfg initOk startOk : Bool)
+  deriving DecidableEq, Repr
+
+/-- a history; an exception that comes out of a public call is caught by the caller, the history continues -/
+def aHist (g x : Bool) (fuel : Nat) : Store → List Op → Res
   | σ, [] => Res.ok σ true []
-  | σ, (n, a) :: cs =>
-    let r := aCall g fuel σ n a true
-    if r.thrown then r
-    else
-      let q := aRun g fuel r.σ cs
-      ⟨q.σ, q.ret, r.tr ++ q.tr, q.thrown, q.oof⟩
+  | σ, .call n a :: cs =>
+    let r := aCall g x fuel σ n a true
+    let q := aHist g x fuel r.σ cs
+    ⟨q.σ, q.ret, r.tr ++ q.tr, r.thrown || q.thrown, r.oof || q.oof, r.td || q.td⟩
+  | σ, .arm n h acts :: cs => aHist g x fuel (σ.set n ((σ.get n).setSlot h acts)) cs
+  | σ, .flags n c i s :: cs =>
+    let nd := σ.get n
+    aHist g x fuel (σ.set n { nd with cfg := c, initOk := i, startOk := s }) cs
+
+/-- a sequence of public lifecycle calls, each on any module -/
+def aRun (g x : Bool) (fuel : Nat) (σ : Store) (cs : List (Nat × Api)) : Res :=
+  aHist g x fuel σ (cs.map fun c => .call c.1 c.2)
 
 /-- no module is inside a lifecycle function (the situation between top-level calls) -/
 def quiescent (σ : Store) : Prop := ∀ m, (σ.get m).busy = false
 
-theorem aRun_Q (fuel : Nat) (σ : Store) (cs : List (Nat × Api)) (h : (aRun true fuel σ cs).thrown = false) :
-    Q σ (aRun true fuel σ cs).σ (aRun true fuel σ cs).tr := by
+theorem setSlot_same (nd : Node) (h : Hook) (a : List Act) : (nd.setSlot h a).st = nd.st ∧ (nd.setSlot h a).busy = nd.busy := by
+  cases h <;> exact ⟨rfl, rfl⟩
+
+theorem aHist_Q (fuel : Nat) (σ : Store) (cs : List Op) (h : (aHist true true fuel σ cs).bad = false) :
+    Q σ (aHist true true fuel σ cs).σ (aHist true true fuel σ cs).tr := by
   induction cs generalizing σ with
   | nil => exact Q.refl σ
   | cons c cs ih =>
-    obtain ⟨n, a⟩ := c
-    simp only [aRun] at h ⊢
-    split
-    · rename_i ht; rw [if_pos ht] at h; rw [ht] at h; simp at h
-    · rename_i ht
-      rw [if_neg ht] at h
-      exact ((P.all fuel).call σ n a (by simpa using ht)).trans (ih _ h)
+    cases c with
+    | call n a =>
+      simp only [aHist] at h ⊢
+      exact ((P.all fuel).call σ n a (by bad_split)).trans (ih (aCall true true fuel σ n a true).σ (by bad_split))
+    | arm n hk acts =>
+      simp only [aHist] at h ⊢
+      have h1 : Q σ (σ.set n ((σ.get n).setSlot hk acts)) [] := by
+        intro m
+        by_cases hm : m = n
+        · subst hm; exact Qm.same (by simp [(setSlot_same _ hk acts).1]) (by simp [(setSlot_same _ hk acts).2])
+        · exact Qm.same (by rw [get_set_other _ _ _ _ hm]) (by rw [get_set_other _ _ _ _ hm])
+      simpa using h1.trans (ih _ h)
+    | flags n c i s =>
+      simp only [aHist] at h ⊢
+      have h1 : Q σ (σ.set n { σ.get n with cfg := c, initOk := i, startOk := s }) [] := by
+        intro m
+        by_cases hm : m = n
+        · subst hm; exact Qm.same (by simp) (by simp)
+        · exact Qm.same (by rw [get_set_other _ _ _ _ hm]) (by rw [get_set_other _ _ _ _ hm])
+      simpa using h1.trans (ih _ h)
 
 /-! ### C11_scripts_gating -/
 
-/-- With the re-entrancy guard, whatever the hooks do — call any API function of any module from
-inside any hook, to any nesting depth, add children while the vector is being walked — for EVERY
-module the hooks that ran form a path of its lifecycle automaton from its old to its new `state_`:
-start only after a successful init, stop only if started, cleanup only after stop, never two
-successful inits without a cleanup in between.  And no module is left marked busy. -/
-theorem C11_scripts_gating (fuel : Nat) (σ : Store) (hq : quiescent σ) (cs : List (Nat × Api))
-    (hnt : (aRun true fuel σ cs).thrown = false) (m : Nat) :
-    hookRun m (σ.get m).st (aRun true fuel σ cs).tr = some ((aRun true fuel σ cs).σ.get m).st ∧
-    ((aRun true fuel σ cs).σ.get m).busy = false := by
-  obtain ⟨b, c⟩ := aRun_Q fuel σ cs hnt m
+/-- With the re-entrancy guard and the roll-back of exceptions, whatever the hooks do — call any API function of any
+module from inside any hook, to any nesting depth, add children while the vector is being walked, THROW from
+`onInit` / `onStart` (directly or out of anything they call) — for EVERY module the hooks that ran form a path of its
+lifecycle automaton from its old to its new `state_`: start only after a successful init, stop only if started, cleanup
+only after stop, never two successful inits without a cleanup in between; a module whose `initialize()` / `start()` was
+left by an exception is where a failed one would be.  And no module is left marked busy (the scope-exit action
+releases `is_in_action_` on every path). -/
+theorem C11_scripts_gating (fuel : Nat) (σ : Store) (hq : quiescent σ) (cs : List Op)
+    (hnb : (aHist true true fuel σ cs).bad = false) (m : Nat) :
+    hookRun m (σ.get m).st (aHist true true fuel σ cs).tr = some ((aHist true true fuel σ cs).σ.get m).st ∧
+    ((aHist true true fuel σ cs).σ.get m).busy = false := by
+  obtain ⟨b, c⟩ := aHist_Q fuel σ cs hnb m
   simp only [hq m, Bool.false_eq_true, if_false] at c
   exact ⟨c, b.trans (hq m)⟩
 
-/-- balance, per module: a module that is in `kNone` before and after has had every successful
-`onInit` matched by exactly one `onCleanup` and every successful `onStart` by exactly one `onStop` -/
-theorem C11_scripts_balanced (fuel : Nat) (σ : Store) (hq : quiescent σ) (cs : List (Nat × Api))
-    (hnt : (aRun true fuel σ cs).thrown = false) (m : Nat)
-    (h0 : (σ.get m).st = .none) (h1 : ((aRun true fuel σ cs).σ.get m).st = .none) :
-    (aRun true fuel σ cs).tr.count (Ev.init m true) = (aRun true fuel σ cs).tr.count (Ev.cleanup m) ∧
-    (aRun true fuel σ cs).tr.count (Ev.start m true) = (aRun true fuel σ cs).tr.count (Ev.stop m) := by
-  have h := (C11_scripts_gating fuel σ hq cs hnt m).1
+/-- balance, per module, over histories in which hooks may throw: a module that is in `kNone` before and after has had
+every successful `onInit` matched by exactly one `onCleanup` and every successful `onStart` by exactly one `onStop` -/
+theorem C11_scripts_balanced (fuel : Nat) (σ : Store) (hq : quiescent σ) (cs : List Op)
+    (hnb : (aHist true true fuel σ cs).bad = false) (m : Nat)
+    (h0 : (σ.get m).st = .none) (h1 : ((aHist true true fuel σ cs).σ.get m).st = .none) :
+    (aHist true true fuel σ cs).tr.count (Ev.init m true) = (aHist true true fuel σ cs).tr.count (Ev.cleanup m) ∧
+    (aHist true true fuel σ cs).tr.count (Ev.start m true) = (aHist true true fuel σ cs).tr.count (Ev.stop m) := by
+  have h := (C11_scripts_gating fuel σ hq cs hnb m).1
   rw [h0, h1] at h
   simpa [nn, rr] using hookRun_counts m _ _ _ h
 
 /-- what the guard buys: while a module is inside one of its own lifecycle functions, nothing its
 hooks (or hooks of hooks …) call can change its `state_` or run one of its hooks -/
 theorem C11_scripts_busy_untouched (fuel : Nat) (σ : Store) (t : Nat) (a : Api) (n : Nat)
-    (hb : (σ.get n).busy = true) (hnt : (aCall true fuel σ t a true).thrown = false) :
-    ((aCall true fuel σ t a true).σ.get n).st = (σ.get n).st ∧ ∀ e ∈ (aCall true fuel σ t a true).tr, e.id ≠ n := by
-  obtain ⟨_, c⟩ := (P.all fuel).call σ t a hnt n
+    (hb : (σ.get n).busy = true) (hnb : (aCall true true fuel σ t a true).bad = false) :
+    ((aCall true true fuel σ t a true).σ.get n).st = (σ.get n).st ∧ ∀ e ∈ (aCall true true fuel σ t a true).tr, e.id ≠ n := by
+  obtain ⟨_, c⟩ := (P.all fuel).call σ t a hnb n
   simpa [hb] using c
+
+/-- `stop()` and `cleanup()` let an exception out only when it came out of an `onStop` / `onCleanup` hook (or the
+fuel of the model ran out): hooks with a result cannot make the teardown functions throw -/
+theorem C11_teardown_throws_only_from_teardown_hooks (fuel : Nat) (σ : Store) (n : Nat) (a : Api) (ha : a = .stop ∨ a = .cleanup)
+    (ht : (aCall true true fuel σ n a true).thrown = true) : (aCall true true fuel σ n a true).bad = true :=
+  (T.all fuel).call σ n a true (by rcases ha with h | h <;> subst h <;> rfl) ht
 
 /-! ### the code before patches/C11-02 violates gating (found by the hook-script generator) -/
 
@@ -85,23 +127,34 @@ def two (s0 s1 : Node → Node) : Store :=
   (({} : Store).set 0 (s0 { alive := true, named := true, cfg := true, initOk := true, startOk := true, kids := [(1, true)] })).set 1
     (s1 { alive := true, named := true, cfg := true, initOk := true, startOk := true, hasParent := true, parent := 0 })
 
+/-- root 0 with required children 1 and 2 -/
+def three (s2 : Node → Node) : Store :=
+  let r : Node := { alive := true, named := true, cfg := true, initOk := true, startOk := true }
+  let k : Node := { r with hasParent := true, parent := 0 }
+  ((({} : Store).set 0 { r with kids := [(1, true), (2, true)] }).set 1 k).set 2 (s2 k)
+
+/-- `cleanup(); ~Module()` at the end of a history on root `n` -/
+def closeDown (g x : Bool) (fuel : Nat) (r : Res) (n : Nat) : List Ev :=
+  let c := aCall g x fuel r.σ n .cleanup true
+  r.tr ++ c.tr ++ (aDestroy g x fuel c.σ n).tr
+
 /-- child's `onStart` calls `root.cleanup()` while the root is in `start()`: unguarded, both modules
 are cleaned up in the middle of being started and end up `kRunning`; later they are cleaned again -/
 theorem C11_reentrant_cleanup_counterexample :
-    (aRun false 40 (two id fun x => { x with sStart := [.call 0 .cleanup] }) [(0, .init), (0, .start), (0, .cleanup)]).tr =
+    (aRun false true 40 (two id fun x => { x with sStart := [.call 0 .cleanup] }) [(0, .init), (0, .start), (0, .cleanup)]).tr =
       [.init 0 true, .init 1 true, .start 0 true, .cleanup 1, .cleanup 0, .start 1 true,
        .stop 1, .stop 0, .cleanup 1, .cleanup 0] := by
   decide +kernel
 
 /-- the same scripts with the guard: the nested call is refused -/
 theorem C11_reentrant_cleanup_repaired :
-    (aRun true 40 (two id fun x => { x with sStart := [.call 0 .cleanup] }) [(0, .init), (0, .start), (0, .cleanup)]).tr =
+    (aRun true true 40 (two id fun x => { x with sStart := [.call 0 .cleanup] }) [(0, .init), (0, .start), (0, .cleanup)]).tr =
       [.init 0 true, .init 1 true, .start 0 true, .start 1 true, .stop 1, .stop 0, .cleanup 1, .cleanup 0] := by
   decide +kernel
 
 /-- child's `onInit` calls `root.initialize()`: unguarded, both `onInit`s run twice for one cleanup -/
 theorem C11_reentrant_init_counterexample :
-    (aRun false 40 (two id fun x => { x with sInit := [.call 0 .init] }) [(0, .init), (0, .cleanup)]).tr =
+    (aRun false true 40 (two id fun x => { x with sInit := [.call 0 .init] }) [(0, .init), (0, .cleanup)]).tr =
       [.init 0 true, .init 0 true, .init 1 true, .init 1 true, .cleanup 1, .cleanup 0] := by
   decide +kernel
 
@@ -111,7 +164,7 @@ theorem C11_reentrant_init_counterexample :
 completes; child's `onStop` calls `cleanup()` on itself and on the parent (both inside `stop()`): refused
 too; the trace is that of the undisturbed tree -/
 theorem C11_script_stop_parent_from_onStart :
-    (aRun true 60 (two id fun x => { x with sStart := [.call 0 .stop], sStop := [.call 1 .cleanup, .call 0 .cleanup] })
+    (aRun true true 60 (two id fun x => { x with sStart := [.call 0 .stop], sStop := [.call 1 .cleanup, .call 0 .cleanup] })
       [(0, .init), (0, .start), (0, .stop), (0, .cleanup)]).tr =
       [.init 0 true, .init 1 true, .start 0 true, .start 1 true, .stop 1, .stop 0, .cleanup 1, .cleanup 0] := by
   decide +kernel
@@ -123,7 +176,7 @@ def twoFree (s0 s1 : Node → Node) : Store :=
 /-- a child is `add()`ed from inside `onInit` of its parent-to-be (state still `kNone`: accepted; the index
 loop of `initialize()` then reaches it), and once more from `onStart` (state `kInited`: refused) -/
 theorem C11_script_add_from_parent_onInit :
-    let r := aRun true 60 (twoFree (fun x => { x with sInit := [.add 0 2 true], sStart := [.add 0 2 true] }) id)
+    let r := aRun true true 60 (twoFree (fun x => { x with sInit := [.add 0 2 true], sStart := [.add 0 2 true] }) id)
       [(0, .init), (0, .start), (0, .cleanup)]
     r.tr = [.init 0 true, .init 1 true, .init 2 true, .start 0 true, .start 1 true, .start 2 true,
             .stop 2, .stop 1, .stop 0, .cleanup 2, .cleanup 1, .cleanup 0] ∧
@@ -132,15 +185,102 @@ theorem C11_script_add_from_parent_onInit :
 
 /-- … and from `onInit` of a sibling, while the parent walks `children_` -/
 theorem C11_script_add_from_sibling_onInit :
-    (aRun true 60 (twoFree id fun x => { x with sInit := [.add 0 2 false] }) [(0, .init), (0, .cleanup)]).tr =
+    (aRun true true 60 (twoFree id fun x => { x with sInit := [.add 0 2 false] }) [(0, .init), (0, .cleanup)]).tr =
       [.init 0 true, .init 1 true, .init 2 true, .cleanup 2, .cleanup 1, .cleanup 0] := by
   decide +kernel
 
-/-! ### LIFO nesting is NOT kept by arbitrary scripts (it is a theorem for trees driven through the root)
+/-! ### `add()` cannot close a cycle (patches/C11-08) -/
 
--- OPEN (false): `stackRun ([], []) (aRun true fuel σ cs).tr ≠ none` for every program of scripts.  A hook may call the
---      public API of a module that is not on top of the nesting order — module.h warns against driving a child by
---      hand but does not forbid it; the re-entrancy guard only protects modules that are inside a lifecycle function. -/
+/-- an accepted `add()`: the parent is `kNone`, the child had no parent, and the child is neither the parent itself nor the
+root of the tree the parent hangs in (the only ways a parentless module could close a cycle) -/
+theorem C11_add_no_cycle (σ σ' : Store) (p c : Nat) (req : Bool) (h : addOp σ p c req = some (σ', true)) :
+    (σ.get p).st = .none ∧ (σ.get c).hasParent = false ∧ rootOf σ 1000 p ≠ c ∧ p ≠ c ∧
+    (σ'.get c).parent = p ∧ (σ'.get p).kids = (σ.get p).kids ++ [(c, req)] := by
+  unfold addOp at h
+  split at h
+  · simp at h
+  split at h
+  · simp at h
+  rename_i hst
+  split at h
+  · simp at h
+  rename_i hpar
+  split at h
+  · simp at h
+  rename_i hroot
+  split at h
+  · simp at h
+  simp only [Option.some.injEq, Prod.mk.injEq, and_true] at h
+  have hpc : p ≠ c := by
+    intro e; subst e
+    apply hroot
+    have hp : (σ.get p).hasParent = false := by simpa using hpar
+    simp [rootOf, hp]
+  refine ⟨by simpa using hst, by simpa using hpar, hroot, hpc, ?_, ?_⟩
+  · rw [← h]; simp
+  · rw [← h, get_set_other _ _ _ _ hpc]; simp
+
+/-- before the patch: the root of a tree is accepted as a child of its own child (the walk along `parent_` then never reaches a
+root: where it stops depends on the fuel), and a module as its own child; the patched `add()` refuses both -/
+theorem C11_add_cycle_counterexample :
+    (addOpOrig (two id id) 1 0 true).map (fun r => (r.2, (r.1.get 0).parent, (r.1.get 1).parent, rootOf r.1 1000 0, rootOf r.1 1001 0)) =
+      some (true, 1, 0, 0, 1) ∧
+    (addOp (two id id) 1 0 true).map (·.2) = some false ∧ (addOp (two id id) 0 0 true).map (·.2) = some false ∧
+    (addOpOrig (({} : Store).set 0 { alive := true }) 0 0 true).map (fun r => (r.1.get 0).kids) = some [(0, true)] := by
+  decide +kernel
+
+/-! ### LIFO nesting under scripts: the class for which it holds, and the sharp counterexamples
+
+The decidable class: scripts whose acts are all calls of lifecycle functions of modules that are INSIDE a lifecycle function at
+that moment (`onlyBusyCalls`) — the hook's own module always is, and when the tree is driven through its root so is every
+ancestor (the path root … parent is on the C++ stack).  For this class every scripted call is refused by the re-entrancy guard:
+the script changes nothing and runs no hook (`C11_scripts_refused_noop`, for every store, script and fuel), so the run is the
+run of the script-free tree, for which `C11_reverse` / `C11_reverse_closed` are theorems.  The class is sharp on both sides: a
+call DOWN into the hook's own subtree breaks balance at destruction (`C11_scripts_own_subtree_counterexample`), a call SIDEWAYS
+to an idle sibling breaks nesting (`C11_scripts_nesting_counterexample`); module.h forbids both in prose only.
+
+-- OPEN (false): `stackRun ([], []) (aRun true true fuel σ cs).tr ≠ none` for every program of scripts.
+-- OPEN (composition): the step from `C11_scripts_refused_noop` to "`stackRun` of the whole arena run succeeds" needs the refinement
+--      arena(script-free) = tree model, which is checked on every run (`M MODEL-MISMATCH` line of the driver: both models are executed
+--      on every unscripted case) but is not a Lean theorem. -/
+
+def onlyBusyCalls (σ : Store) : List Act → Bool
+  | [] => true
+  | .call t _ :: rest => (σ.get t).busy && onlyBusyCalls σ rest
+  | _ :: _ => false
+
+theorem C11_scripts_refused_noop (x : Bool) (σ : Store) : ∀ (as : List Act) (fuel : Nat), onlyBusyCalls σ as = true →
+    as.length + 1 < fuel →
+    (runActs true x fuel σ as).σ = σ ∧ (runActs true x fuel σ as).tr = [] ∧ (runActs true x fuel σ as).thrown = false ∧
+    (runActs true x fuel σ as).bad = false
+  | [], fuel, _, hf => by
+    obtain ⟨f, rfl⟩ : ∃ f, fuel = f + 1 := ⟨fuel - 1, by omega⟩
+    simp [runActs, Res.ok, Res.bad]
+  | .throw :: _, _, h, _ => by simp [onlyBusyCalls] at h
+  | .add _ _ _ :: _, _, h, _ => by simp [onlyBusyCalls] at h
+  | .call t a :: rest, fuel, h, hf => by
+    obtain ⟨f, rfl⟩ : ∃ f, fuel = f + 2 := ⟨fuel - 2, by simp at hf; omega⟩
+    simp only [onlyBusyCalls, Bool.and_eq_true] at h
+    have ih := C11_scripts_refused_noop x σ rest (f + 1) h.2 (by simp at hf ⊢; omega)
+    have hc : aCall true x (f + 1) σ t a true = Res.ok σ false [] := by simp [aCall, h.1]
+    simp only [runActs, hc, Res.ok]
+    split
+    · simp only [Bool.false_eq_true, if_false, List.nil_append, Bool.false_or]
+      exact ⟨ih.1, ih.2.1, ih.2.2.1, by simpa [Res.bad] using ih.2.2.2⟩
+    · exact ih
+
+/-- non-vacuity: a child's `onStart` script calling `stop()` and `cleanup()` on itself and on its parent while the parent starts it -/
+example : onlyBusyCalls ((two id id).setBusy 0 true |>.setBusy 1 true) [.call 0 .stop, .call 1 .cleanup, .call 0 .cleanup] = true := by
+  decide +kernel
+
+/-- a call DOWN the tree: the root's `onInit` initialises its child by hand.  The loop of `initialize()` then finds the child
+`kInited` (its `initialize()` answers false), treats that as a failed required child and rolls the root back — the child stays
+initialised below a `kNone` parent and its `onInit` is never matched, not even by `cleanup(); ~Module()` -/
+theorem C11_scripts_own_subtree_counterexample :
+    let r := aRun true true 60 (two (fun nd => { nd with sInit := [.call 1 .init] }) id) [(0, .init)]
+    r.bad = false ∧ r.thrown = false ∧ closeDown true true 60 r 0 = [.init 1 true, .init 0 true, .cleanup 0] ∧
+    hookRun 1 .none (closeDown true true 60 r 0) = some .inited := by
+  decide +kernel
 
 /-- root 0 with required children 1, 2, 3 -/
 def kidOf (p : Nat) : Node :=
@@ -152,27 +292,79 @@ def four (s3 : Node → Node) : Store :=
 
 /-- child 3's `onInit` cleans up its eldest sibling: gating and balance hold (`C11_scripts_*`), nesting does not -/
 theorem C11_scripts_nesting_counterexample :
-    let r := aRun true 60 (four fun x => { x with sInit := [.call 1 .cleanup] }) [(0, .init), (0, .cleanup)]
+    let r := aRun true true 60 (four fun x => { x with sInit := [.call 1 .cleanup] }) [(0, .init), (0, .cleanup)]
     r.thrown = false ∧
     r.tr = [.init 0 true, .init 1 true, .init 2 true, .cleanup 1, .init 3 true, .cleanup 3, .cleanup 2, .cleanup 0] ∧
     stackRun ([], []) r.tr = none ∧ (∀ m < 4, hookRun m .none r.tr = some .none) := by
   decide +kernel
 
-/-! ### a hook that throws — outside the property (assumption), shown to break it
+/-! ### hooks that throw
 
--- OPEN (by design of the code): an exception from a user hook propagates through initialize()/start()/stop()/
---      cleanup() without roll-back (module.cpp has no try/catch), so the modules brought up so far stay up with a
---      parent that is `kNone`.  `C11_scripts_*` therefore assume `thrown = false`. -/
+As found (before patches/C11-07, `x = false`) module.cpp had no try/catch: an exception from a child's `onInit` unwound
+`initialize()` of every ancestor without roll-back.  The re-entrancy flags were released (scope-exit action), but the
+modules brought up so far stayed up below a parent that is `kNone` — which `cleanup()` then skips, and whose
+destructor reaches the children with the base hooks only. -/
+
+/-- as found: child 2's `onInit` throws; the successful `onInit` hooks of 0 and 1 are never matched, not even by
+`cleanup(); ~Module()` — the balance clause of the property is violated -/
 theorem C11_throwing_hook_counterexample :
-    let r := aRun true 40 (two id fun x => { x with sInit := [.throw] }) [(0, .init)]
-    r.thrown = true ∧ r.tr = [.init 0 true, .init 1 false] ∧ (r.σ.get 0).st = .none ∧
-    hookRun 0 .none r.tr = some .inited := by
+    let r := aRun true false 40 (three fun nd => { nd with sInit := [.throw] }) [(0, .init)]
+    r.thrown = true ∧ r.tr = [.init 0 true, .init 1 true, .init 2 false] ∧
+    (r.σ.get 0).st = .none ∧ (r.σ.get 1).st = .inited ∧ (r.σ.get 0).busy = false ∧
+    closeDown true false 40 r 0 = [.init 0 true, .init 1 true, .init 2 false] ∧
+    hookRun 0 .none (closeDown true false 40 r 0) = some .inited ∧ hookRun 1 .none (closeDown true false 40 r 0) = some .inited := by
+  decide +kernel
+
+/-- repaired (patches/C11-07): the same exception is rolled back on its way out — and is still delivered to the caller -/
+theorem C11_throwing_hook_repaired :
+    let r := aRun true true 40 (three fun nd => { nd with sInit := [.throw] }) [(0, .init)]
+    r.thrown = true ∧ r.bad = false ∧ r.tr = [.init 0 true, .init 1 true, .init 2 false, .cleanup 1, .cleanup 0] ∧
+    (∀ m < 3, (r.σ.get m).st = .none ∧ (r.σ.get m).busy = false) ∧ closeDown true true 40 r 0 = r.tr := by
+  decide +kernel
+
+/-- the same for `onStart`, as found and repaired; afterwards the tree is usable: `start()` again works, and
+`cleanup()` balances everything -/
+theorem C11_throwing_start_counterexample :
+    let σ := three fun nd => { nd with sStart := [.throw] }
+    (aRun true false 60 σ [(0, .init), (0, .start), (0, .cleanup)]).tr =
+      [.init 0 true, .init 1 true, .init 2 true, .start 0 true, .start 1 true, .start 2 false,
+       .cleanup 2, .stop 1, .cleanup 1, .cleanup 0] ∧
+    hookRun 0 .none (aRun true false 60 σ [(0, .init), (0, .start), (0, .cleanup)]).tr = none ∧
+    (aRun true true 60 σ [(0, .init), (0, .start), (0, .start), (0, .cleanup)]).tr =
+      [.init 0 true, .init 1 true, .init 2 true, .start 0 true, .start 1 true, .start 2 false, .stop 1, .stop 0,
+       .start 0 true, .start 1 true, .start 2 true, .stop 2, .stop 1, .stop 0, .cleanup 2, .cleanup 1, .cleanup 0] := by
+  decide +kernel
+
+/-- an exception that crosses several levels and a hook script: 2's `onInit` calls `initialize()` of the free-standing
+tree 5 → 6, whose leaf throws; every frame on the way rolls back, the caller of `0.initialize()` gets the exception -/
+theorem C11_throw_through_script_repaired :
+    let k : Node := { alive := true, named := false, initOk := true, startOk := true }
+    let σ := ((three fun nd => { nd with sInit := [.call 5 .init] }).set 5 { k with kids := [(6, true)] }).set 6
+      { k with hasParent := true, parent := 5, sInit := [.throw] }
+    let r := aRun true true 60 σ [(0, .init)]
+    r.thrown = true ∧ r.bad = false ∧
+    r.tr = [.init 0 true, .init 1 true, .init 5 true, .init 6 false, .cleanup 5, .init 2 false, .cleanup 1, .cleanup 0] := by
+  decide +kernel
+
+-- OPEN (not repaired, `bad = false` excludes it): an exception that leaves `onStop` / `onCleanup`.  `state_` is assigned after the
+--      hook, so a throwing `onStop` leaves the module `kRunning` and the next `stop()`/`cleanup()` runs `onStop` a second time;
+--      on the destructor path (`~Module()` is noexcept) it is `std::terminate`.  Teardown hooks must not throw.
+theorem C11_throwing_teardown_counterexample :
+    let r := aRun true true 60 (two id fun nd => { nd with sStop := [.throw] }) [(0, .init), (0, .start), (0, .stop), (0, .cleanup)]
+    r.bad = true ∧ r.tr = [.init 0 true, .init 1 true, .start 0 true, .start 1 true, .stop 1, .stop 1, .stop 0, .cleanup 1, .cleanup 0] ∧
+    hookRun 1 .none r.tr = none := by
   decide +kernel
 
 /-- non-vacuity of the hypotheses: a quiescent store, scripts on several hooks, no exception -/
-example : (aRun true 60 (two (fun x => { x with sStop := [.call 1 .start, .call 0 .init] })
+example : (aRun true true 60 (two (fun x => { x with sStop := [.call 1 .start, .call 0 .init] })
       (fun x => { x with sInit := [.call 0 .cleanup], sCleanup := [.call 1 .init] }))
-      [(0, .init), (0, .start), (0, .stop), (0, .cleanup)]).thrown = false := by
+      [(0, .init), (0, .start), (0, .stop), (0, .cleanup)]).bad = false := by
+  decide +kernel
+
+/-- … and a history with exceptions, re-armed scripts and changed results that is not `bad` -/
+example : (aHist true true 60 (three fun nd => { nd with sInit := [.throw] })
+      [.call 0 .init, .arm 2 .onStart [.call 0 .stop, .throw], .call 0 .init, .call 0 .start, .flags 1 true true false,
+       .call 0 .start, .call 0 .cleanup]).bad = false := by
   decide +kernel
 
 end Tbox.C11.Arena
